@@ -187,7 +187,7 @@ func init() {
 		made := 0
 		for i := 0; made < n && i < 20*n; i++ {
 			cr := r.Fork(uint64(i))
-			o := gen.Opts{Categories: gen.AllCategories(), MinBatches: 1, MaxBatches: 3, MaxEntries: 3, MaxAddenda: 2,
+			o := gen.Opts{IATCorrections: true, Categories: gen.AllCategories(), MinBatches: 1, MaxBatches: 3, MaxEntries: 3, MaxAddenda: 2,
 				NonASCII: i%7 == 3, FullWidth: i%5 == 4, PresetTraces: i%2 == 0, Offset: i%6 == 5}
 			switch i % 6 {
 			case 0:
